@@ -68,6 +68,23 @@ func (fc *funcContext) SetPos(pos token.Pos) {
 	fc.pos = pos
 }
 
+// posHint returns the source map hint of the position of the statement that is
+// being translated, or nil if it has none.
+func (fc *funcContext) posHint() []byte {
+	if !fc.pos.IsValid() {
+		return nil
+	}
+	h := sourcemapx.Hint{}
+	if err := h.Pack(fc.pos); err != nil {
+		panic(bailout(fmt.Errorf("failed to pack source map position: %w", err)))
+	}
+	buf := &bytes.Buffer{}
+	if _, err := h.WriteTo(buf); err != nil {
+		panic(bailout(fmt.Errorf("failed to write source map hint: %w", err)))
+	}
+	return buf.Bytes()
+}
+
 func (fc *funcContext) writePos() {
 	if fc.posAvailable {
 		fc.posAvailable = false
